@@ -45,6 +45,10 @@ def eval_encode(rel, bp, ctype, date, respin):
         ci.compose.id = made[1]
         out["validate"] = _call(ci.compose.validate)
         out["decoded"] = _call(pc.get_date_type_respin, made[1])
+        # the respin workflow: the id is stored, the respin bumped, the id created again
+        ci.compose.respin = respin + 1 if respin + 1 < 10 ** 8 else 0
+        again = _call(ci.create_compose_id)
+        out["next_respin_decoded"] = _call(pc.get_date_type_respin, again[1]) if again[0] == "ok" else again
     return out
 
 
@@ -79,9 +83,15 @@ def legacy_doc(version, cid, ctype, with_fields, date, respin):
 
 
 def eval_legacy(doc):
+    """loaded into a ComposeInfo that has already loaded a current-version document (its header has been consulted before)"""
     import productmd.composeinfo as pc
+    from mc.build import ci as CI
     ci = pc.ComposeInfo()
-    r = _call(ci.loads, json.dumps(doc))
+    ci.loads(CI.build(CI.seed_flat()).dumps())
+    ci.header.version_tuple
+    ci = ci if doc.get("_reuse", True) else pc.ComposeInfo()
+    ci.variants.variants.clear()
+    r = _call(ci.loads, json.dumps({k: v for k, v in doc.items() if k != "_reuse"}))
     if r[0] != "ok":
         return {"load": r}
     return {"load": "ok", "triple": [ci.compose.date, ci.compose.type, ci.compose.respin], "id": ci.compose.id}
@@ -138,6 +148,11 @@ def _check_encode(rel, bp, ctype, date, respin, acc):
         bad = True
     if o["decoded"] != ["ok", [date, ctype, respin]]:
         acc.violation("decode", case, o, "get_date_type_respin(%r) = %s, created from %s" % (cid, o["decoded"], (date, ctype, respin)))
+        bad = True
+    nxt = respin + 1 if respin + 1 < 10 ** 8 else 0
+    if o.get("next_respin_decoded") != ["ok", [date, ctype, nxt]]:
+        acc.violation("respin-bumped", case, o, "after the id %r was stored and the respin set to %d, a newly created id decodes to %s"
+                      % (cid, nxt, o.get("next_respin_decoded")))
         bad = True
     acc.outcome("encode:differs" if bad else "encode:ok")
     if bp:
